@@ -112,6 +112,18 @@ def dynamic_registration(ctx, cases):
                 cases.append((model_case(rs.ctx.cdb[cid[name]], u, ru, g.sub, salt), rec))
                 if u in g.sub:
                     ctx.violation("uid-in-clear", "sub %r contains the user id %r" % (g.sub, u), rec)
+        # ---- the stored registration is what Model/Sub.v registered_record says it is
+        regs = []
+        for name, ru, sector, st in DYN_CLIENTS:
+            if name in cid:
+                reg = rs.ctx.cdb[cid[name]]
+                regs.append(("(%s, %s, mkCreg %s %s %s)" % (
+                    coq_opt(st, coq_str, "pystr"), coq_opt(sector, coq_str, "pystr"),
+                    coq_opt(reg.get("subject_type"), coq_str, "pystr"), coq_opt(reg.get("sector_id"), coq_str, "pystr"),
+                    coq_opt(reg.get("sector_identifier_uri"), coq_str, "pystr")),
+                    {"dynamic": True, "client": name, "asked": [st, sector],
+                     "stored": [reg.get("subject_type"), reg.get("sector_id"), reg.get("sector_identifier_uri")]}))
+        ctx.coq_check_cases(["Lib.Base", "Lib.PyStr", "Model.Sub"], "option pystr * option pystr * creg", "chk_registered", regs, label="registered")
         truth = {name: (st, host(sector or ru)) for name, ru, sector, st in DYN_CLIENTS}
         for u in sess.USERS[:2]:
             for a in truth:
